@@ -422,3 +422,64 @@ pub fn corpus_files(dir: Option<&str>) -> Vec<(String, String)> {
     v.sort();
     v
 }
+
+/// A watchdog for harnesses that call the implementation in-process: if one stimulus does not return
+/// within `limit` (the code under test is stuck inside a call: a lock taken twice, an endless loop),
+/// the stimulus list so far is written as a failing input and the process exits with status 1.
+pub struct Watchdog {
+    state: std::sync::Arc<std::sync::Mutex<(std::time::Instant, Vec<String>, bool)>>,
+}
+
+impl Watchdog {
+    /// `out`: where the report goes (`--out`), `sub`/`seed`/`tier`: as in the ordinary report, `key`: failure key.
+    #[must_use]
+    pub fn start(out: Option<String>, sub: &str, seed: u64, tier: Tier, key: String, limit: std::time::Duration) -> Self {
+        let state = std::sync::Arc::new(std::sync::Mutex::new((std::time::Instant::now(), Vec::<String>::new(), false)));
+        let st = state.clone();
+        let sub = sub.to_string();
+        std::thread::spawn(move || loop {
+            std::thread::sleep(std::time::Duration::from_millis(500));
+            let (stuck, lines) = {
+                let g = st.lock().expect("watchdog");
+                (g.2 && g.0.elapsed() > limit, g.1.clone())
+            };
+            if stuck {
+                let last = lines.last().cloned().unwrap_or_default();
+                let desc = format!("the implementation did not return from `{last}` within {} s: the endpoint is stuck inside the call (a lock taken twice, an endless loop) — nothing on this connection can make progress any more", limit.as_secs());
+                let rep = json!({
+                    "sub": sub, "seed": seed,
+                    "tier": match tier { Tier::Quick => "quick", Tier::Thorough => "thorough" },
+                    "evaluations": 1, "distinct_nontrivial": 1,
+                    "rule": "watchdog: the run was cut short by a stimulus that never returned", "samples": [], "distribution": {},
+                    "exhaustive": false, "model_compared": 0,
+                    "failures": [{"kind": "impl", "key": key, "desc": desc, "replay": {"lines": lines}}],
+                    "notes": ["the run ended at the first stimulus that did not return"],
+                });
+                let text = serde_json::to_string_pretty(&rep).expect("json");
+                match &out {
+                    Some(p) => { let _ = std::fs::write(p, text); }
+                    None => println!("{text}"),
+                }
+                eprintln!("FAILS {key}: {desc}");
+                std::process::exit(1);
+            }
+        });
+        Self { state }
+    }
+    /// A new case starts with these lines (the watchdog is armed from now on).
+    pub fn begin(&self, lines: Vec<String>) {
+        let mut g = self.state.lock().expect("watchdog");
+        *g = (std::time::Instant::now(), lines, true);
+    }
+    /// The implementation is about to be called with this stimulus.
+    pub fn stimulus(&self, line: &str) {
+        let mut g = self.state.lock().expect("watchdog");
+        g.0 = std::time::Instant::now();
+        g.1.push(line.to_string());
+    }
+    /// The case is over (shrinking, reporting: not watched).
+    pub fn idle(&self) {
+        let mut g = self.state.lock().expect("watchdog");
+        g.2 = false;
+    }
+}
